@@ -223,8 +223,11 @@ pub async fn run_life(tok: &[&str]) -> String {
                         }
                     }
                     "X" => {
-                        handles.clear();
-                        log.lock().unwrap().push("a:X".into());
+                        // like every other action: only possible while a handle exists
+                        if !handles.is_empty() {
+                            handles.clear();
+                            log.lock().unwrap().push("a:X".into());
+                        }
                     }
                     "R" => {
                         if let Some(ch) = handles.first() {
